@@ -89,6 +89,47 @@ def run_harness(run, bins, name, args, timeout=900):
         return []
     return [json.loads(l) for l in out.splitlines() if l.startswith("{")]
 
+def replay_lines(path, prop):
+    """A replay file written by run.violation is one JSON object with a `cases` list; corpus files are
+    JSON lines.  Either way hand the harness a JSON-lines file."""
+    txt = open(path).read()
+    try:
+        j = json.loads(txt)
+        cases = j.get("cases", []) if isinstance(j, dict) else j
+    except ValueError:
+        return path
+    d = os.path.join(C.ALT or C.CACHE, "cases"); os.makedirs(d, exist_ok=True)
+    out = os.path.join(d, "replay_%s.jsonl" % prop)
+    with open(out, "w") as fh:
+        for c in cases: fh.write(json.dumps(c) + "\n")
+    return out
+
+def verdicts_C14(cases, tag="C14shrink"):
+    res = C.run_case_files(tag, [case_file(cases)])
+    ok, vals, raw = res[0]
+    return vals[0] if ok and len(vals) == 1 and len(vals[0]) == len(cases) else None
+
+def shrink_C14(run, bins, j, want, budget=40):
+    """Greedy one-call-at-a-time reduction of a failing description: each round plays every description
+    with one call removed through the real code and keeps the first that still has verdict `want`."""
+    d = j["desc"]; best = j
+    for _ in range(budget):
+        cands = []
+        for i in range(len(d["ops"])):
+            e = dict(d); e["ops"] = d["ops"][:i] + d["ops"][i + 1:]; e["split"] = d["split"] - (1 if i < d["split"] else 0)
+            cands.append(e)
+        if not cands: break
+        p = os.path.join(C.ALT or C.CACHE, "cases", "shrink_C14.jsonl"); os.makedirs(os.path.dirname(p), exist_ok=True)
+        with open(p, "w") as fh:
+            for e in cands: fh.write(json.dumps({"desc": e}) + "\n")
+        outs = run_harness(run, bins, "httpreq_build", "--replay " + p)
+        vs = verdicts_C14(outs) if len(outs) == len(cands) else None
+        if not vs: break
+        hit = [o for o, v in zip(outs, vs) if v == want]
+        if not hit: break
+        best = hit[0]; d = best["desc"]
+    return best
+
 def check_C14(run, replay=None):
     tier = run.tier
     count = 3000 if tier == "quick" else 50000
@@ -99,12 +140,12 @@ def check_C14(run, replay=None):
     if ok:
         corpus = sorted(glob.glob(os.path.join(CORPUS, "c14_*.jsonl")))
         if replay:
-            cases += run_harness(run, bins, "httpreq_build", "--replay " + replay)
+            cases += run_harness(run, bins, "httpreq_build", "--replay " + replay_lines(replay, "C14"))
         else:
             if corpus:
                 cases += run_harness(run, bins, "httpreq_build", "--replay " + " ".join(corpus))
             cases += run_harness(run, bins, "httpreq_build", "%d %d" % (run.seed, count), timeout=1800)
-    evaluate_C14(run, cases)
+    evaluate_C14(run, cases, bins if ok else None)
     run.cov["rule"] = ("request descriptions = entry point (9 verb shorthands with a URL string | request(Method, Url) over all 39 methods, "
                        "URLs built from schemes/hosts/ports/paths/queries/fragments incl. unicode, percent-escapes, dot segments, base joins) x call list "
                        "(header as &str/String/&[HeaderValue]/&HeaderValues, mixed-case repeated names, 0..40 calls; content_type; ten body kinds incl. 64 KiB and "
@@ -118,7 +159,7 @@ def check_C14(run, replay=None):
                     "harness/src/bin/httpreq_build.rs (plays descriptions through the real APIs inside Command and Core, catch_unwind)",
                     "engines/httpreq_eng.py printer of cases as Coq terms; lib/common.py parser of coqc output"]
 
-def evaluate_C14(run, cases):
+def evaluate_C14(run, cases, bins=None):
     if not cases:
         run.oblige("C14 cases produced", False, "no cases"); return
     disagree = [j for j in cases if any(e.get("oracle_disagree") for e in j["enc"])]
@@ -150,6 +191,9 @@ def evaluate_C14(run, cases):
     run.oblige("second independent description (plain Rust, harness) agrees wherever the Coq verdict is 0", not rust_bad, json.dumps([slim(j) for j in rust_bad[:3]])[:3000])
     if bad_ok:
         bad_ok.sort(key=desc_size)
+        if bins:
+            try: bad_ok[0] = shrink_C14(run, bins, bad_ok[0], 2)
+            except Exception as ex: run.extra["shrink_error"] = repr(ex)
         run.violation("C14_ok", {"property": "C14", "what": "the request that reached the shell is not the one described (or a malformed description was not rejected)",
                                  "cases": [slim(j, full=True) for j in bad_ok[:20]],
                                  "how_to_replay": "./check C14 --replay <this file>; each case has desc (the calls), enc/urls (oracle answers) and the observed effects; hex fields are bytes"})
@@ -253,7 +297,7 @@ def check_C11(run, replay=None):
     if ok:
         corpus = sorted(glob.glob(os.path.join(CORPUS, "c11_*.jsonl")))
         if replay:
-            cases += run_harness(run, bins, "httpreq_replay", "--replay " + replay)
+            cases += run_harness(run, bins, "httpreq_replay", "--replay " + replay_lines(replay, "C11"))
         else:
             for f in corpus:
                 cases += run_harness(run, bins, "httpreq_replay", "--replay " + f)
